@@ -1846,7 +1846,13 @@ impl Value {
                     None
                 }
                 ObjectRepr::Seq => {
-                    let idx = index(key, || dy.enumerator_len()).map(Value::from);
+                    // Like iterables, sequences that do not announce their length
+                    // are counted when the index is relative to the end.
+                    let idx = index(key, || {
+                        dy.enumerator_len()
+                            .or_else(|| dy.try_iter().map(|iter| iter.count()))
+                    })
+                    .map(Value::from);
                     dy.get_value(idx.as_ref().unwrap_or(key))
                 }
             },
